@@ -190,6 +190,33 @@ func c15PhaseSweep(t *testing.T, rep *report.R, tmaxQ, imaxQ int) {
 	})
 }
 
+// c15ManySubnets: isolation does not depend on how many subnets the limiter has seen. n distinct subnets (v4 and v6) each spend
+// their whole burst in the same instant; every one of them is admitted (it is that subnet's first request), and so are the first
+// requests of fresh subnets afterwards.
+func c15ManySubnets(t *testing.T, rep *report.R, n int) {
+	synctest.Test(t, func(t *testing.T) {
+		cl := NewClientLimiter(ClientLimiterOpts{Limit: 1, Burst: 3})
+		defer func() { cl.Close(); synctest.Wait() }()
+		now := time.Now()
+		for i := 0; i < n; i++ {
+			var a netip.Addr
+			if i%2 == 0 {
+				a = netip.AddrFrom4([4]byte{byte(16 + (i>>16)&0x7F), byte(i >> 8), byte(i), 7}) // a distinct /24 per i
+			} else {
+				a = netip.AddrFrom16([16]byte{0x20, 0x01, byte(i >> 24), byte(i >> 16), byte(i >> 8), byte(i), 0, 0, 0, 0, 0, 0, 0, 0, 0, 9}) // distinct /48
+			}
+			if !cl.AllowN(a, now, 3) {
+				rep.Violate("C15:limiter:many-subnets:fresh-subnet-refused", fmt.Sprintf("the first request of subnet number %d (%s, cost 3 = burst) was refused after %d other subnets had been seen", i+1, a, i), map[string]any{"Phase": true, "Many": n})
+				return
+			}
+			if i%4096 == 0 {
+				report.Progress()
+			}
+		}
+		rep.Eval(fmt.Sprintf("many-subnets|%d", n))
+	})
+}
+
 func TestVerifC15(t *testing.T) {
 	rep := report.New("C15 client limiter")
 	defer rep.Write()
@@ -233,10 +260,16 @@ func TestVerifC15(t *testing.T) {
 	rep.Rule = fmt.Sprintf("E3 (virtual clock, real gc ticker): (buckets) configs limit{1,20} x burst{omitted,1,5,200} with default masks x all arrival sequences of length <=%d over 3 addresses in 2 subnets x delay {0, 1/limit, 1s, 61s, 121s} x cost {1,3,15,burst}; "+
 		"(masks) v4_mask {omitted,16,21,24,25,27,32} x v6_mask {omitted,48,50,53,64} with limit=burst=1 x all ordered pairs over 30 addresses (a v4 base, its v4-mapped form and a v6 base, each with one bit flipped at positions around every mask boundary, plus cross-family aliases: v6 addresses whose leading octets equal a v4 address and vice versa) at one instant; "+
 		"oracle: over every window the admitted cost per property-defined subnet <= burst + rate*window; a request within the budget left by its own subnet's traffic is never refused; "+
-		"(phases) configs (rate,burst) {(20,50),(20,default),(3,10),(7,10),(1,5),(0.5,3)}: spend the whole burst at T, stay silent for I, ask for the whole burst again (twice) for every T in 0..%ds and I in 0.25..%ds on a 0.25 s grid, i.e. at every phase of the periodic clean-up", maxLen, report.ParamInt("PHASE_T", 260)/4, report.ParamInt("PHASE_I", 40)/4)
+		"(phases) configs (rate,burst) {(20,50),(20,default),(3,10),(7,10),(1,5),(0.5,3)}: spend the whole burst at T, stay silent for I, ask for the whole burst again (twice) for every T in 0..%ds and I in 0.25..%ds on a 0.25 s grid, i.e. at every phase of the periodic clean-up; (many subnets) %d distinct subnets (v4 /24 and v6 /48 alternating) each spend their burst in one instant: every first request is admitted", maxLen, report.ParamInt("PHASE_T", 260)/4, report.ParamInt("PHASE_I", 40)/4, report.ParamInt("SUBNETS", 140000))
 	if rp := report.ReplayFile(); rp != nil {
 		var x struct{ Phase bool }
 		rp.Decode(&x)
+		var y struct{ Many int }
+		rp.Decode(&y)
+		if y.Many > 0 {
+			c15ManySubnets(t, rep, y.Many)
+			return
+		}
 		if x.Phase {
 			c15PhaseSweep(t, rep, report.ParamInt("PHASE_T", 260), report.ParamInt("PHASE_I", 40))
 			return
@@ -285,6 +318,9 @@ func TestVerifC15(t *testing.T) {
 	c15Delays = saved
 	if rp := report.ReplayFile(); rp == nil {
 		c15PhaseSweep(t, rep, report.ParamInt("PHASE_T", 260), report.ParamInt("PHASE_I", 40))
+		if sh, _ := report.Shard(); sh == 0 {
+			c15ManySubnets(t, rep, report.ParamInt("SUBNETS", 140000))
+		}
 	}
 	rep.Sample(map[string]any{"config": "limit=1 burst=200 masks omitted", "arrivals": "+0 198.51.100.7 cost15 ... ; +121s 198.51.100.7 cost15", "oracle": "admitted cost in any window <= 200 + 1*window"})
 }
